@@ -254,10 +254,15 @@ def rule_queens(F, R):
                   'ids': '%s .. %s' % (pshow(a['ids'][0]), pshow(a['ids'][1])), 'constraint': a['op']})
     # coverage: per kind, the id intervals chain from the first to the last line without gap or overlap (identities in n)
     for kind, (lo, hi) in FULL.items():
+        if kind in ('diag', 'anti'):
+            # the two extreme diagonals consist of one cell each: an at-most-one constraint on a single cell is vacuous and may be omitted
+            lo, hi = padd(lo, P(1)), padd(hi, P(-1))
         ivs = [a['ids'] for a in fam.get(kind, [])]
         import itertools
         ok = False
         n1 = [padd(N_, P(-1))]
+        if kind in ('diag', 'anti'):
+            n1 = [padd(N_, P(-2))]        # for n = 1 the required range is empty (lo > hi); prove coverage for n >= 2
         for perm in itertools.permutations(ivs):
             cur = lo; good = True
             for (a1, a2) in perm:
